@@ -16,6 +16,8 @@ VERUS_UNITS = {
 # --no-overflow-checks silences CBMC's own float NaN/overflow checks (NaN and inf are values, C05); rustc's
 # overflow assertions, which C01/C06/C09 rely on, stay on (canary in every group)
 KANI_GROUPS = {
+    'f64-ast': dict(mods=[('src/eval_f64/mod.rs', 'kani/f64_ast.rs', 'verif_ast')], flags=['--no-overflow-checks', '-Z', 'stubbing'], timeout=400, jobs=14),
+    'number-ast': dict(mods=[('src/eval_number/mod.rs', 'kani/number_ast.rs', 'verif_ast')], flags=['--no-overflow-checks', '-Z', 'stubbing'], timeout=400, jobs=14),
     'number-l4': dict(mods=[('src/eval_number/mod.rs', 'kani/number_l4.rs', 'verif_l4')], flags=['--no-overflow-checks'], timeout=600, jobs=4),
 }
 
